@@ -6,6 +6,7 @@ import (
 	"encoding/json"
 	"fmt"
 	"os"
+	"regexp"
 	"strings"
 	"sync/atomic"
 	"testing"
@@ -42,6 +43,10 @@ var c18Setup = []string{
 	"CREATE TABLE orders (qty INT, note VARCHAR(30), name VARCHAR(10))",
 	"INSERT INTO orders VALUES (5, 'five', 'ann'), (6, 'six', 'bob')",
 	"INSERT INTO orders (note) VALUES ('only note')",
+	// long names: result headings of 20 and more characters
+	"CREATE TABLE measurements (relative_humidity_percent INT, station_identifier_code VARCHAR(12), a INT)",
+	"INSERT INTO measurements VALUES (40, 'st-1', 1), (60, 'st-2', 2)",
+	"INSERT INTO measurements (a) VALUES (3)",
 }
 
 var c18Targeted = []string{
@@ -55,6 +60,16 @@ var c18Targeted = []string{
 	"UPDATE t0 SET a = 'x'", "UPDATE t0 SET nosuch = 1", "UPDATE t0 SET a = b", "UPDATE t0 SET a = 1 WHERE nosuch = 2", "UPDATE t0 SET a = 1 WHERE d > 'x'", "UPDATE nosuch SET a = 1",
 	"DELETE FROM t0 WHERE b > 1", "DELETE FROM t0 WHERE nosuch = 1", "DELETE FROM nosuch", "CREATE TABLE t0 (a INT)", "CREATE TABLE (a INT)", "CREATE TABLE t9 ()", "CREATE TABLE t9 (a INT, a INT)",
 	"CREATE TABLE t9 (a VARCHAR(0))", "CREATE TABLE t9 (a VARCHAR(9999999999))", "SELECT * FROM sys_pages", "SELECT * FROM sys_schema ORDER BY field_length",
+	"SELECT * FROM measurements", "SELECT relative_humidity_percent FROM measurements", "SELECT avg(relative_humidity_percent), count(station_identifier_code) FROM measurements",
+	"SELECT avg(measurements.relative_humidity_percent) FROM measurements", "SELECT a AS an_alias_of_more_than_twenty_characters FROM t0", "SELECT count(*) AS number_of_rows_in_the_table FROM t0",
+	"SELECT station_identifier_code, count(*) FROM measurements GROUP BY station_identifier_code", "SELECT m.relative_humidity_percent, t0.a FROM measurements m JOIN t0 ON m.a = t0.a",
+	"SELECT a AS exactly_twenty_chars_ FROM t0", "SELECT a AS nineteen_characters FROM t0", "SELECT a AS abcdefghijklmnopqrstuvwxyzabcdefghijklmnopqrstuvwxyzabcdefghijklmnopqrstuvwxyz FROM t0",
+	// just outside the grammar (if they parse, they must not crash)
+	"SELECT avg(*) FROM t0", "SELECT a, avg(*) FROM t0 GROUP BY a", "SELECT avg(*)", "SELECT count() FROM t0", "SELECT avg() FROM t0", "SELECT count(*, a) FROM t0", "SELECT avg(1) FROM t0",
+	"SELECT count(1) FROM t0", "SELECT avg(a, d) FROM t0", "SELECT count(count(*)) FROM t0", "SELECT avg(avg(a)) FROM t0", "SELECT count(t0.*) FROM t0", "SELECT t0.* FROM t0", "SELECT avg('x') FROM t0",
+	"SELECT count(NULL) FROM t0", "SELECT avg(NULL) FROM t0", "SELECT * FROM t0 WHERE avg(a) > 1", "SELECT * FROM t0 ORDER BY count(*)", "SELECT * FROM t0 GROUP BY a", "SELECT count(*) FROM t0 ORDER BY a",
+	"SELECT * FROM t0 LIMIT a", "SELECT * FROM t0 LIMIT 'x'", "SELECT * FROM t0 OFFSET NULL", "INSERT INTO t0 VALUES (avg(a))", "INSERT INTO t0 VALUES (a)", "INSERT INTO t0 VALUES (NULL, NULL, NULL, NULL)",
+	"UPDATE t0 SET a = NULL", "UPDATE t0 SET a = count(*)", "UPDATE t0 SET a = a", "DELETE FROM t0 WHERE count(*) > 1", "SELECT * FROM t0 WHERE NULL", "SELECT * FROM t0 WHERE a = NULL", "SELECT NULL FROM t0", "SELECT NULL",
 	"USE nosuch", "USE d1", "CREATE DATABASE d1", "SHOW DATABASES", "SELECT count(*), avg(a) FROM t2", "SELECT a, count(*) FROM t2 GROUP BY a", "SELECT avg(a) FROM t0 WHERE a > 100",
 }
 
@@ -96,9 +111,45 @@ func c18Gen(rt *rapid.T) c18Case {
 			c.SQL = append(c.SQL, rapid.SampledFrom(c18Targeted).Draw(rt, "tq"))
 			continue
 		}
-		c.SQL = append(c.SQL, gen.RenderAny(gen.NewStyle(rt), gen.FreeStmt(rt)))
+		q := gen.RenderAny(gen.NewStyle(rt), gen.FreeStmt(rt))
+		if rapid.IntRange(0, 4).Draw(rt, "mutate") == 0 {
+			q = c18Mutate(rt, q)
+		}
+		c.SQL = append(c.SQL, q)
 	}
 	return c
+}
+
+var c18TokRe = regexp.MustCompile(`'[^']*'|"[^"]*"|[\pL_][\pL\pN_]*|\d+|<=|>=|!=|[^\s\pL\pN_]`)
+
+// c18Mutate changes one or two tokens of a statement of the grammar: most
+// results no longer parse (fine), some parse to statements just outside the
+// grammar the executor was written for - they must be answered, not crash.
+func c18Mutate(rt *rapid.T, q string) string {
+	toks := c18TokRe.FindAllString(q, -1)
+	if len(toks) < 2 {
+		return q
+	}
+	subst := []string{"*", "NULL", "1", "'x'", "(", ")", ",", "avg", "count", "t0", "a", "t0.a", "true", ".", "=", "AND", "AS", "FROM", "t1", "measurements"}
+	for k := rapid.IntRange(1, 2).Draw(rt, "nmut"); k > 0; k-- {
+		i := rapid.IntRange(0, len(toks)-1).Draw(rt, "mutat")
+		switch rapid.IntRange(0, 4).Draw(rt, "mutkind") {
+		case 0: // delete
+			toks = append(toks[:i:i], toks[i+1:]...)
+		case 1: // duplicate
+			toks = append(toks[:i+1:i+1], toks[i:]...)
+		case 2: // swap with the neighbour
+			if i+1 < len(toks) {
+				toks[i], toks[i+1] = toks[i+1], toks[i]
+			}
+		default: // replace
+			toks[i] = rapid.SampledFrom(subst).Draw(rt, "subst")
+		}
+		if len(toks) < 2 {
+			break
+		}
+	}
+	return strings.Join(toks, " ")
 }
 
 func c18BulkInsert(rows int) string {
